@@ -101,6 +101,15 @@ static std::vector<Op<OC>> make_ops(size_t n, size_t nh) {
   add("{S1 t(B); A=t; t*=3;}", [](P &p) { Spline<S, 1> t(p.b); p.a = t; t *= mki<S>(3); }, {{COPY, A, B}});
   add("B=S1(A)", [](P &p) { p.b = Spline<S, 1>(p.a); }, {{COPY, B, A}});
   add("{SC t(move(C));}", [](P &p) { Spline<S, OC> t(std::move(p.c)); (void)t; }, {{MOVEDFROM, C, -1}});
+  add("swap(A,B)", [](P &p) { std::swap(p.a, p.b); }, {{FRESH, A, -1}, {FRESH, B, -1}});
+  add("B:=S1(H)", [=](P &p) { p.b = Spline<S, 1>(p.Hg); }, {{FRESH, B, -1}});
+  add("{vector v{A,B,A}; v.insert(begin,v[1]); v.erase(begin+2); A=v[0]; B=move(v[2]);}", [](P &p) {
+        std::vector<Spline<S, 1>> v{p.a, p.b, p.a};
+        v.insert(v.begin(), v[1]);   // inserting an element of the vector itself (reallocation moves the others)
+        v.erase(v.begin() + 2);      // {B, A, A}
+        p.a = v[0];
+        p.b = std::move(v[2]);
+      }, {{COPY, A, B}, {FRESH, B, -1}});
   add("U=A.getSupport()", [](P &p) { p.u = p.a.getSupport(); }, {{COPY, U, A}});
   add("U=B.getSupport()", [](P &p) { p.u = p.b.getSupport(); }, {{COPY, U, B}});
   add("U=C.getSupport()", [](P &p) { p.u = p.c.getSupport(); }, {{COPY, U, C}});
